@@ -540,3 +540,4 @@ def replay(w):
     for o in r.obs:
         print(o.cls, o.detail)
     return 1 if r.obs else 0
+LEVEL = "fault_enumeration"
